@@ -424,5 +424,40 @@ func runSizes(t *testing.T) {
 		}
 	}
 
+	// any legal chunking: thousands of small chunks over the whole payload
+	for i, nk := range [][2]int{{10000, 1}, {10000, 2}, {10000, 7}, {65536, 16}, {3000, 1}} {
+		if i%shards != shard {
+			continue
+		}
+
+		n, k := nk[0], nk[1]
+		head := fmt.Sprintf(`<rpc-reply xmlns="%s" message-id="101"><data>`, sim.BaseNS)
+		tail := "</data></rpc-reply>"
+		payload := head + strings.Repeat("b", n-len(head)-len(tail)) + tail
+
+		var sizes []int
+		for left := n; left > 0; left -= k {
+			sizes = append(sizes, min(k, left))
+		}
+
+		raw := frame11(payload, sizes, "\n", "\n")
+		r := response.NewNetconfResponse(nil, nil, "sim", 830, "1.1")
+		r.Record(raw)
+
+		c := map[string]any{"payload_bytes": n, "uniform_chunk": k, "chunks": len(sizes)}
+		v := ev.Verdict{OK: true, NonTrivial: true, Classes: []string{fmt.Sprintf("chunks=%d", len(sizes))}}
+
+		if r.Failed != nil || r.Result != payload {
+			v = ev.Fail("valid 1.1 frame of %d chunks of %d bytes: Failed=%v, result has %d bytes, want the %d byte payload", len(sizes), k, r.Failed, len(r.Result), n)
+		}
+
+		ran++
+		ev.RecordExternal("sizes", c, v)
+
+		if !v.OK {
+			ev.FailExternal(t, "sizes", c, v)
+		}
+	}
+
 	fmt.Printf("ENUM-OK sizes-cases=%d\n", ran)
 }
